@@ -208,6 +208,25 @@ pub fn build_corpus() -> Vec<Seed> {
             format!("\x1b[2;2H{}\x1b[2;4H{}\x1b[1;1H{big}\x1b[2;30H{}\x1b[1;1H{big}\x1b[10;1Htext\r\n", small(1), small(2), small(4)).into_bytes()
         },
     });
+    // an IcyDraw file whose layer data is cut into a first chunk and a continuation chunk (`LAYER_0~1`): the engine's writer
+    // only does that beyond 3 MB of layer data, the loader accepts it at any size. Hand-made inside the PNG frame of the
+    // engine's own tiny.icy: a 3x2 layer, row 0 in the first chunk, row 1 in the continuation chunk
+    if let Some(frame) = seeds.iter().find(|s| s.name == "tiny.icy").map(|s| s.bytes.clone()) {
+        use crate::props::c10::{icy_file, layer_header_fp, long_cell};
+        let row = |chars: [u32; 3]| -> Vec<u8> { chars.iter().flat_map(|c| long_cell(*c)).collect() };
+        let first = row([0x41, 0x42, 0x43]);
+        let mut p = layer_header_fp(b"continued", 3, 2, first.len() as u64, 0);
+        p.extend(first);
+        let chunks = vec![("LAYER_0".to_string(), p), ("LAYER_0~1".to_string(), row([0x61, 0x62, 0x63]))];
+        let bytes = icy_file(&frame, &chunks);
+        // only a seed if the loader really takes it as a two-row picture
+        if let Ok(b) = Buffer::from_bytes(std::path::Path::new("c.icy"), false, &bytes) {
+            use icy_engine::TextPane;
+            if b.layers.first().map(|l| l.get_char((2, 1)).ch) == Some('c') {
+                seeds.push(Seed { api: "buf".into(), ext: "icy".into(), name: "continued.icy".into(), bytes });
+            }
+        }
+    }
     // the PETSCII (.seq) writer is unimplemented in the engine ("not implemented!"), so this seed is hand-made:
     // colour codes, reverse on/off, cursor keys, clear/home, shifted and unshifted ranges, every byte once
     seeds.push(Seed {
